@@ -230,9 +230,26 @@ func c05Kinds() []kindVal {
 		{"n:400digits.0", json.Number(strings.Repeat("9", 400) + ".0"), false}, {"n:309digits", json.Number("2" + strings.Repeat("0", 308)), false},
 		{"n:10", json.Number("10"), false}, {"n:1e308", json.Number("1e308"), false}, {"n:1e-320", json.Number("1e-320"), false}, {"n:-1.7e308", json.Number("-1.7e308"), false},
 		{"n:tiny400", json.Number("0." + strings.Repeat("0", 400) + "1"), false}, {"n:1E+400", json.Number("1E+400"), false}, {"n:-1.5e999", json.Number("-1.5e999"), false},
+		// exponents at the edge of what arbitrary-precision parsers take
+		{"n:1e999999999", json.Number("1e999999999"), false}, {"n:-2.5E+1000000000", json.Number("-2.5E+1000000000"), false}, {"n:1e2147483647", json.Number("1e2147483647"), false}, {"n:1e-999999999", json.Number("1e-999999999"), false}, {"n:1e99999999999", json.Number("1e99999999999"), false},
 		{"s:empty", "", false}, {"s:a", "a", false}, {"s:1", "1", false}, {"s:true", "true", false}, {"s:1e400", "1e400", false}, {"s:nan", "NaN", false}, {"s:+inf", "+inf", false}, {"s:+Infinity", "+Infinity", false}, {"s:-Inf", "-Inf", false}, {"s:inf", "inf", false}, {"s:+nan", "+nan", false},
 		{"s:1e999", "1e999", false}, {"s:hexfloat", "0x1p1023", false}, {"s:-1e999", "-1e999", false}, {"s:infinity", "infinity", false},
 		{"arr:empty", []any{}, false}, {"arr:1a", []any{1.0, "a"}, false}, {"arr:nested", []any{[]any{1.0}, map[string]any{"a": nil}}, false},
+		{"arr:20strings", func() any {
+			var a []any
+			for i := 0; i < 20; i++ {
+				a = append(a, fmt.Sprintf("s%d", i))
+			}
+			return a
+		}(), false},
+		{"arr:20mixed", func() any {
+			var a []any
+			for i := 0; i < 20; i++ {
+				a = append(a, []any{fmt.Sprintf("s%d", i), i%2 == 0, float64(i), nil}[i%4])
+			}
+			return a
+		}(), false},
+		{"arr:containers", []any{map[string]any{"a": 1.0}, []any{"s1"}, "s3", true, []any{[]any{1.0}}}, false},
 		{"obj:empty", map[string]any{}, false}, {"obj:a", map[string]any{"a": 1.0, "b": []any{2.0}}, false},
 		{"date", "2023-08-15", true}, {"time", "12:34:56", true}, {"timetz", "12:34:56+01:00", true}, {"timestamp", "2023-08-15T12:34:56", true}, {"timestamptz", "2023-08-15T12:34:56+01:00", true},
 	}
